@@ -57,18 +57,18 @@ func ContractAddr(i int, last byte) []byte {
 	return a
 }
 
-func Big(v int64) []byte       { return big.NewInt(v).Bytes() }
-func U64(v uint64) []byte      { return new(big.Int).SetUint64(v).Bytes() }
-func BigB(v *big.Int) []byte   { return v.Bytes() }
-func Pow2(n uint) *big.Int     { return new(big.Int).Lsh(big.NewInt(1), n) }
-func B(s string) []byte        { return []byte(s) }
-func Cat(p ...[]byte) []byte   { return bytes.Join(p, nil) }
+func Big(v int64) []byte        { return big.NewInt(v).Bytes() }
+func U64(v uint64) []byte       { return new(big.Int).SetUint64(v).Bytes() }
+func BigB(v *big.Int) []byte    { return v.Bytes() }
+func Pow2(n uint) *big.Int      { return new(big.Int).Lsh(big.NewInt(1), n) }
+func B(s string) []byte         { return []byte(s) }
+func Cat(p ...[]byte) []byte    { return bytes.Join(p, nil) }
 func Args(a ...[]byte) [][]byte { return a }
 
 var SysSC = vmcommon.ESDTSCAddress
 var SysAcc = vmcommon.SystemAccountAddress
 
-const BigGas = uint64(1) << 40
+const BigGas = uint64(1) << 50
 
 type UniOpts struct {
 	Shards       uint32
